@@ -72,6 +72,20 @@ def run(F, R):
                     ok = a.startswith("poll(%s(" % (W.by_id[qv.body["parent"]]["item"],)) and a.endswith("@Ready.0")
                     # nothing else queries the policy between that query and the arming
                     R.check("C12-R1", "armed-with-fresh-timing:" + _k(par) + ":" + str(bi), ok, "armed with the result of the preceding query", "timers are armed with %s" % a[:120], lib.loc(par.bv, bi))
+                    # .. as returned: no field of that value is written between the query and the arming ("exactly that time bound and minimum wait")
+                    pl_ = t["args"][1].get("m") or t["args"][1].get("c")
+                    roots_ = set()
+                    if pl_ is not None:
+                        roots_.add(pl_["l"])
+                        for (dbi_, dsi_, kind_, x_) in par.bv.defs.get(pl_["l"], []):
+                            if kind_ == "rv" and x_["k"] == "use":
+                                q_ = x_["o"].get("m") or x_["o"].get("c")
+                                if q_ is not None and not q_.get("p"):
+                                    roots_.add(q_["l"])
+                    touched = [(wbi_, smod._chain(wp_)) for (wbi_, wsi_, wp_, wr_) in par.bv.field_writes if wp_["l"] in roots_ and wp_.get("p") and wbi_ in par.bv.reach0 and wr_.get("k") != "callret"]
+                    R.check("C12-R1", "timing-handed-on-unmodified:" + _k(par) + ":" + str(bi), not touched, "the timing is handed to the timers as the policy returned it",
+                            "the timing is modified between the policy's answer and the timers (%s): the timers are not armed for exactly the announced time bound and minimum wait" % sorted(set(".".join(map(str, c_)) for _, c_ in touched))[:3],
+                            lib.loc(par.bv, touched[0][0]) if touched else None)
 
     # inside a wait loop, every re-arming is preceded in the same iteration by a fresh policy query
     if mv is not None and qv is not None:
